@@ -230,3 +230,10 @@ package dns
 //@   property C09, C11
 //@ property C09, C11
 //@ fact fullFragmentFits()                                :bounded_full_fragment_fits_a_name_for_every_codec_and_domain_length
+
+// C11: a downstream codec probe passes only when the reply is the expected pattern: a reply of the wrong
+// length or with a wrong octet is an error
+//@ func (dc *ClientDnsConnection) TestDownstreamEncoder
+//@   property C11
+//@   callsite return#1 (ret0 error) require ret0 != nil                                   :wrong_length_is_an_error
+//@   callsite return#2 (ret0 error) require ret0 != nil                                   :wrong_octet_is_an_error
